@@ -79,6 +79,16 @@ def check(rep, tier, rng):
     os.symlink(os.path.join(d, v0), os.path.join(d, "link_to_v0.x"))
     for alias in ("sub/../" + v0, "link_to_v0.x", "./" + v0):
         lib_out[alias] = lib_out[v0]
+    # arguments that look like options or are degenerate: the CLI has no options — each is a path (and none of these exists)
+    for odd in ("--", "-", "-h", "--help", "--version", "", " ", v0 + " ", "valid0.X"):
+        lib_out[odd] = "U"
+        arglists += [[odd], [v0, odd], [odd, v0]]
+    lib_out[os.path.join(d, v0)] = lib_out[v0]          # the absolute path
+    arglists += [[os.path.join(d, v0)], [os.path.join(d, v0), v0]]
+    # many arguments; shorter files after longer ones and the reverse (a buffer reused between files shows here)
+    valids = [n for n, _ in pool if n.startswith("valid")] + ["repo_spec.x", "empty.x"]
+    by_len = sorted(valids, key=lambda n: len(dict(pool)[n]))
+    arglists += [valids * 3, by_len, by_len[::-1], ["repo_spec.x", v0, "empty.x", v1], ["empty.x", "empty.x", v0]]
     arglists += [[v0, v0], [v0, v1, v0], [v0, "sub/../" + v0], [v0, "link_to_v0.x"], ["./" + v0, v0, v0], [v1, v1, v1], ["rejected.x", "rejected.x"], [v0, "rejected.x", v0]]
     model = run_driver(["cli %s %s" % (t3.hx(exe), " ".join(lib_out[a] for a in args)) for args in arglists])
     nviol, tie, distinct, kinds = 0, 0, set(), {}
